@@ -162,12 +162,13 @@ PROPS = {
         units=[U("c12_sched", "c12_sched.cpp", variant="plain", extra_srcs=["vsched.cpp"], flags=["-I{REPO}/src/fitter"], exclude_objs=["cholesky_solve.o"],
                  repo_srcs=[("src/fitter/cholesky_solve.c", ["-Dpthread_create=vs_create", "-Dpthread_join=vs_join", "-Dpthread_mutex_lock=vs_lock", "-Dpthread_mutex_unlock=vs_unlock",
                                                             "-Dpthread_cond_wait=vs_cond_wait", "-Dpthread_cond_broadcast=vs_broadcast", "-Dpthread_exit=vs_exit", "-Dsched_setaffinity=vs_setaffinity"])],
-                 quick=64, thorough=640, names=["sched_dfs", "sched_pct"], leaks=False, no_isolate_rerun=True)],
+                 quick=64, thorough=640, names=["sched_dfs", "sched_pct"], leaks=False, no_isolate_rerun=True),
+               U("c12_tsan", "c12_tsan.cpp", variant="tsan", quick=48, thorough=4000, names=["tsan_fits"], leaks=False, no_isolate_rerun=True, workers=dict(quick=4, thorough=8))],
         rule="a case = one line-search problem (1..6 unknowns, 0..6 infeasible components => 2..8 trial steps, 1..4 workers) and a set of schedules: sched_dfs enumerates the tree of "
              "choice sequences (budget 2500 leaves quick / 450000 thorough; 'exhaustive_tree' when the tree was finished), sched_pct runs 300 (3000) PCT/random schedules. evaluations "
              "counts problems; class 'schedules' counts executed schedules. Non-trivial schedule: a worker finished a computation while the coordinator was between unlock and wait, "
              "or at least two context switches; distinct = hash(problem, choice sequence).",
-        essential={"sched_dfs": {"schedules": 50.0, "dfs:exhaustive_within_preemption_bound": 0.12}, "sched_pct": {"schedules": 50.0, "schedule:worker_finished_in_coordinator_window": 1.0}},
+        essential={"tsan_fits": {"fits": 5.0}, "sched_dfs": {"schedules": 50.0, "dfs:exhaustive_within_preemption_bound": 0.12}, "sched_pct": {"schedules": 50.0, "schedule:worker_finished_in_coordinator_window": 1.0}},
         assumptions=["the shim's model of mutexes/condition variables follows POSIX semantics without spurious wake-ups"],
     ),
     "C09": dict(
